@@ -111,13 +111,7 @@ macro_rules! msm_mappings {
             }
             impl core::cmp::PartialOrd for SigId {
                 fn partial_cmp(&self, other: &Self) -> Option<core::cmp::Ordering> {
-                    let l = to_id(*self);
-                    let r = to_id(*other);
-                    if let (Some(l), Some(r)) = (l, r) {
-                        return l.partial_cmp(&r);
-                    } else {
-                        None
-                    }
+                    Some(self.cmp(other))
                 }
             }
             impl core::cmp::Ord for SigId {
